@@ -281,6 +281,68 @@ theorem tick_serves_by_priority (z z2 : MSess) (t e : Bool) (out : List MResp)
     obtain ⟨ob, hob, rfl⟩ := List.mem_map.mp hx'
     exact ⟨ob, hob, rfl⟩⟩
 
+/-! ### Current priorities, after any history of inserts, removals and priority changes -/
+
+/-- what it means for the responses `out` / offers `offs` of one tick, started in session `z`, to
+respect the priorities the subscriptions have IN `z` (not the ones they had earlier) -/
+def Good (z : MSess) (out : List MResp) (offs : List (Entry × Bool)) : Prop :=
+  out.Pairwise (fun a b => a.prio ≥ b.prio) ∧
+  (∀ r ∈ out, ∃ x ∈ z.subs, x.id = r.sub ∧ x.prio = r.prio) ∧
+  (∀ r ∈ out, ∀ ob ∈ offs, ob.1.prio > r.prio → ob.2 = true) ∧
+  (∀ x ∈ z.subs, ∃ ob ∈ offs, ob.1 = x)
+
+/-- **Every tick serves by the CURRENT priorities.**  For every session `z` — hence after any
+history whatsoever — the priority carried by each response of `tick z` is the priority its
+subscription has in `z` now, the responses are in non-increasing order of those priorities, and
+every subscription of `z` with a strictly higher current priority than an answered one was offered
+a request first. -/
+theorem tick_good (z z2 : MSess) (t e : Bool) (out : List MResp) (offs : List (Entry × Bool))
+    (h : tick z t e = some (z2, out, offs)) : Good z out offs := by
+  obtain ⟨h1, h2, h3⟩ := tick_serves_by_priority z z2 t e out offs h
+  refine ⟨h1, ?_, h2, h3⟩
+  intro r hr
+  obtain ⟨o, ho, hid, hp⟩ := (tickList_facts _ t e _ z z2 out offs h).1 r hr
+  exact ⟨o, (mem_sortBy true o z.subs).mp ho, hid.symm, hp.symm⟩
+
+/-- operations between ticks -/
+inductive Op where
+  | timer (e w : Bool)
+  | publish (r : Nat)
+  | setPrio (id p : Nat)          -- ModifySubscription
+  | remove (id : Nat)             -- DeleteSubscriptions
+  | add (x : Entry)               -- CreateSubscription
+deriving Repr
+
+def stepH (z : MSess) : Op → Option MSess
+  | .timer e w => (tick (if w then write z else z) true e).map (·.1)
+  | .publish r =>
+    match publish z r with
+    | .ok z' _ => some z'
+    | .tooMany z' _ => some z'
+    | .panic => none
+  | .setPrio id p => some ((setPrio z id p).getD z)
+  | .remove id => some (remove z id).1
+  | .add x => some (add z x)
+
+def runH : MSess → List Op → Option MSess
+  | z, [] => some z
+  | z, op :: ops =>
+    match stepH z op with
+    | some z' => runH z' ops
+    | none => none
+
+/-- the statement over histories: whatever inserts, removals, priority changes, requests and
+ticks came before, the next timer tick respects the priorities as they are at that moment -/
+theorem history_tick_good (z0 : MSess) (pre : List Op) (z : MSess) (_h : runH z0 pre = some z)
+    (e w : Bool) (z2 : MSess) (out : List MResp) (offs : List (Entry × Bool))
+    (ht : tick (if w then write z else z) true e = some (z2, out, offs)) :
+    Good (if w then write z else z) out offs :=
+  tick_good _ z2 true e out offs ht
+
+/-- after a priority change the visiting order is sorted by the NEW priorities -/
+theorem order_follows_setPrio (z z' : MSess) (id p : Nat) (_h : setPrio z id p = some z') :
+    (sortBy true z'.subs).Pairwise Ge := sortBy_sorted z'.subs
+
 /-! ### Non-vacuity and the repaired defect -/
 
 def entry (id prio : Nat) : Entry := { id := id, prio := prio, s := C22.mk 30 3 true true }
@@ -305,5 +367,25 @@ subscription (id 5) although the priority-200 subscription has a notification re
 theorem C27_counterexample_ascending_sort :
     (afterCreation false).bind (fun z => answered (tickWith C22.current false z true true)) = some [5] := by
   decide
+
+/-- both subscriptions leave Creating and, one interval later, each holds a data notification that
+no request has collected yet -/
+def warm : Option MSess :=
+  ((tick twoSubs true true).bind fun r => tick r.1 true true).map (·.1)
+
+/-- ModifySubscription flips the two priorities: 5 ↦ 200, 9 ↦ 1; then one publish request arrives -/
+def flipped : Option MSess :=
+  (warm.bind fun z => (setPrio z 5 200).bind fun z1 => setPrio z1 9 1).map fun z => { z with reqs := [7] }
+
+/-- non-vacuity of `history_tick_good`: after the priority change the current source gives the
+request to subscription 5 (now priority 200) -/
+example : flipped.bind (fun z => answered (tick z false false)) = some [5] := by decide
+
+/-- **A cached service order would be a defect.**  Visiting the subscriptions in the order that was
+sorted BEFORE the priority change gives the request to subscription 9 (now priority 1) although
+subscription 5 (now priority 200) has a notification ready. -/
+theorem C27_counterexample_stale_order :
+    flipped.bind (fun z => answered (tickList C22.current false false z (sortBy true twoSubs.subs))) =
+      some [9] := by decide
 
 end OpcuaVerif.C27
